@@ -12,6 +12,7 @@ mod keys;
 mod server;
 mod stubs;
 mod vtransport;
+mod wire;
 
 use serde_json::{json, Value};
 use std::{collections::BTreeMap, io::Write};
@@ -131,6 +132,7 @@ fn main() {
         "server" => server::run(&a),
         "hooks" => hooks::run(&a),
         "stubs" => stubs::run(&a),
+        "wire" => wire::run(&a),
         f => {
             eprintln!("unknown family {f}");
             std::process::exit(2);
